@@ -47,7 +47,19 @@ pub enum Op {
         /// also run the shipped binary on a copy of the tree and compare (fault-free steps only)
         #[serde(default)]
         cli: bool,
+        /// this run only: another input (a single file instead of the directory, or the other
+        /// way round) and/or the other annotate value — two configurations used one after the
+        /// other on the same project and output directory
+        #[serde(default)]
+        input_override: Option<InputOverride>,
     },
+}
+
+#[derive(Clone, Debug, Serialize, Deserialize, PartialEq, Eq)]
+pub struct InputOverride {
+    /// Some(rel) = that single file is the input; None = the source directory
+    pub src_file: Option<String>,
+    pub annotate: bool,
 }
 
 #[derive(Clone, Debug, Serialize, Deserialize, PartialEq, Eq)]
@@ -474,8 +486,16 @@ impl HistExec {
                     }
                 }
             }
-            Op::Transpile { hash_seed, readdir_seed, plan, crash_at, disk_budget, cli } => {
+            Op::Transpile { hash_seed, readdir_seed, plan, crash_at, disk_budget, cli, input_override } => {
+                // an override applies to this run only
+                let saved = (self.layout.src_file.clone(), self.annotate);
+                if let Some(o) = input_override {
+                    self.layout.src_file = o.src_file.clone();
+                    self.annotate = o.annotate;
+                }
                 self.transpile(op_index, *hash_seed, *readdir_seed, plan, *crash_at, *disk_budget, *cli);
+                self.layout.src_file = saved.0;
+                self.annotate = saved.1;
             }
         }
     }
